@@ -17,7 +17,11 @@
      C11_order_full                 release order, for EVERY history
      C11_no_dup_full                nothing twice without crashes, for EVERY crash-free and fault-free history
      C11_refused_handoff_full       a refused hand-off marks nothing seen (it is retried by the next reap)
-     C11_queue_is_C10_spec_full     the model's queue steps are the FIFO specification C10 proves of the real queue *)
+     C11_queue_is_C10_spec_full     the model's queue steps are the FIFO specification C10 proves of the real queue
+     C11_handout_whole_full         a produce step that takes a batch takes ALL of it, whatever it holds (no size limit:
+                                    GetNextBatchRequest.MaxBytes is not honoured by the single sequencer), deletes its
+                                    record and — clock permitting — commits a block holding exactly that batch
+     C11_restart_keeps_queue_full   a clean restart rebuilds the queue from its records and touches nothing else *)
 From Coq Require Import NArith ZArith List Bool.
 From Verif Require Import Model.Reaper Proofs.ReaperProofs.
 Import ListNotations.
@@ -99,6 +103,37 @@ Theorem C11_queue_is_C10_spec_full : forall (enc : batch -> Verif.Model.Queue.ba
     end.
 Proof. exact (fun enc max q => conj (queue_submit_is_C10 enc max q) (queue_next_is_C10 enc max q)). Qed.
 Print Assumptions C11_queue_is_C10_spec_full.
+
+(* In every state of a running node with a batch [b] at the head of the queue, no pending block and a readable last
+   header: the produce step hands out the WHOLE of [b] — [b] is any list of transactions, the model has no notion of
+   their size or number, as queue.go Next has none — deletes its record (one WQDel of all of [b]; nothing is put
+   back: no WQPut among the writes), and, unless the clock reading is before the last block's time (the refuted
+   case above), saves and commits a block of the next height holding exactly [b].  Tied to the code by the harness on
+   hand-offs whose total size is just under / at / just over 1 500 000 bytes and other byte limits a size-aware
+   hand-out could use, followed by restarts and crashes between the block that took the batch and the next one. *)
+Theorem C11_handout_whole_full : forall (max : N) (gt : Z) (s : st) (ts : Z) (b : batch) (q : list batch) (lt : option Z),
+  up s = true -> queue s = b :: q -> nth_error (blocks s) (th s) = None -> last_time s = Some lt ->
+  let s' := step max gt s (IRun (AProduce ts)) in
+  queue s' = q /\ stale s' = stale s /\ released s' = released s ++ [b] /\
+  writes_of (item_acts max gt s (IRun (AProduce ts))) =
+    (if before ts lt then [WQDel b; WMeta]
+     else [WQDel b; WMeta; WBlock (S (th s)) b ts false; WBlock (S (th s)) b ts true; WState (S (th s)); WHeight (S (th s))]) /\
+  (before ts lt = false ->
+     blocks s' = blocks s ++ [{| b_txs := b; b_time := ts; b_signed := true |}] /\ th s' = S (th s) /\ sh s' = S (th s) /\
+     fst (observe max gt s (IRun (AProduce ts))) = 3%N).
+Proof. exact handout_whole. Qed.
+Print Assumptions C11_handout_whole_full.
+
+(* In every state with a state record (any history behind it, node running or not): a clean restart puts every queue
+   record — the stale ones first — back into the queue in record order and changes nothing else of what the property
+   speaks about: whatever waited in the queue before the restart waits in it afterwards. *)
+Theorem C11_restart_keeps_queue_full : forall (max : N) (gt : Z) (s : st),
+  sh s <> 0 ->
+  let s' := step max gt s (IRun ABoot) in
+  up s' = true /\ queue s' = stale s ++ queue s /\ stale s' = [] /\ blocks s' = blocks s /\ sh s' = sh s /\
+  seen s' = seen s /\ mem s' = mem s /\ taken s' = taken s /\ released s' = released s.
+Proof. exact restart_keeps_records. Qed.
+Print Assumptions C11_restart_keeps_queue_full.
 
 (* ---- the property as worded is false of the faithful model -------------------------------------------------- *)
 (* F12: nothing crashes; the batch [7] is taken with a clock reading (150) before the last block's time (200):
@@ -233,3 +268,14 @@ Proof. vm_compute. repeat split; reflexivity. Qed.
 Example before_the_reaper_repair :
   filter (fun t => negb (memb t [])) [7; 7]%N = [7; 7]%N /\ select [] [] [7; 7]%N = [7%N].
 Proof. vm_compute. split; reflexivity. Qed.
+
+(* the hypotheses of C11_handout_whole_full are met: two batches wait ([10;11] — in the harness two transactions
+   of 500 000 + 1 000 000 bytes — and [3]); the step takes all of the first, the restart that follows keeps the second,
+   the next step takes it *)
+Example ex_handout :
+  let s := final 0 0 [IRun ABoot; IRun (AProduce 100); IArrive 10; IArrive 11; IRun AReap; IArrive 3; IRun AReap] in
+  up s = true /\ queue s = [[10; 11]; [3]]%N /\ nth_error (blocks s) (th s) = None /\ last_time s = Some (Some 0%Z) /\
+  sh s <> 0 /\
+  block_txs (run 0 0 s [IRun (AProduce 200); IRun ABoot; IRun (AProduce 300)]) = [[]; [10; 11]; [3]]%N /\
+  queue (run 0 0 s [IRun (AProduce 200); IRun ABoot]) = [[3]]%N.
+Proof. vm_compute. repeat split; try reflexivity. discriminate. Qed.
